@@ -81,6 +81,8 @@ class Tracer:
         e = ret
         if isinstance(ret, tuple) and len(ret) == 2:
             e = ret[1]
+            if isinstance(e, str):  # (header, implementation) and the like: a text, not an error
+                e = None
         tops: List[Any] = []
         if e is None:
             tops = []
@@ -397,6 +399,25 @@ def _listing(d: pathlib.Path) -> set:
     return {str(p.relative_to(d)) for p in d.rglob("*")}
 
 
+def _run_as_module(model_path: pathlib.Path, snippets_dir: pathlib.Path, output_dir: pathlib.Path, target: str, out: Any, err: Any) -> int:
+    import contextlib
+    import runpy
+
+    argv = ["aas_core_codegen", "--model_path", str(model_path), "--snippets_dir", str(snippets_dir), "--output_dir", str(output_dir), "--target", target]
+    old_argv = sys.argv
+    sys.argv = argv
+    try:
+        with contextlib.redirect_stdout(out), contextlib.redirect_stderr(err):
+            try:
+                runpy.run_module("aas_core_codegen", run_name="__main__", alter_sys=True)
+            except SystemExit as ex:
+                code = ex.code
+                return 0 if code is None else (code if isinstance(code, int) else 1)
+        return 0
+    finally:
+        sys.argv = old_argv
+
+
 def run_main(
     model_path: pathlib.Path,
     snippets_dir: pathlib.Path,
@@ -406,6 +427,7 @@ def run_main(
     arg_defect: str = "none",
     timeout: int = 3000,
     cache_flag: bool = False,
+    via_module: bool = False,
 ) -> Dict[str, Any]:
     """One traced run of main.execute. `text` is the model text when the model path is a regular file."""
     from aas_core_codegen import main as cg_main
@@ -421,7 +443,12 @@ def run_main(
     TR.log("CheckArgs")  # the basic checks of main.execute are inline code: the event is synthesized
     TR.active = True
     try:
-        rc = _with_alarm(timeout, lambda: cg_main.execute(params, stdout=out, stderr=err))
+        if via_module:
+            # ``python -m aas_core_codegen``: the package's __main__ run as a script; the exit status is the
+            # one the interpreter would report (SystemExit code, 0 when the module simply ends)
+            rc = _with_alarm(timeout, lambda: _run_as_module(model_path, snippets_dir, output_dir, target, out, err))
+        else:
+            rc = _with_alarm(timeout, lambda: cg_main.execute(params, stdout=out, stderr=err))
     except Exception as ex:  # observation
         exc = ex
     finally:
